@@ -137,6 +137,19 @@ def branch_chain(stmts, var_pred):
                 yield a
 
 
+def branch_chain_all(fn, var_pred):
+    """branch_chain over every statement list of a function (nested blocks included)"""
+    seen = set()
+    for owner in ast.walk(fn):
+        for field in ('body', 'orelse', 'finalbody'):
+            blk = getattr(owner, field, None)
+            if isinstance(blk, list) and blk and isinstance(blk[0], ast.stmt):
+                for arm in branch_chain(blk, var_pred):
+                    if id(arm[3]) not in seen or True:
+                        yield arm
+                    seen.add(id(arm[3]))
+
+
 def name_or_call_pred(*names):
     """predicate matching Name(id in names) or a path expression whose access path is in names"""
     s = set(names)
